@@ -16,7 +16,26 @@ KINDS = {
     'C09': ['CreateBid', 'ExecuteMatch', 'RejectBidNone', 'RejectBidSome', 'CancelBid', 'ExpireBid'],
     'C10': FUND_MOVERS,
     'C17': FUND_MOVERS,
+    'C07': ['CreateAsk', 'CreateBid'],
+    'C12': ['ModifyContract'],
 }
+
+
+def specs_c11(tier):
+    """books holding two asks and two bids: the request names at most one of each, the others must come through untouched"""
+    out = []
+    for s in ST.specs_for(FUND_MOVERS + ['ModifyContract'], tier, funds_variants=False):
+        if s['kind'] == 'ModifyContract':
+            m = dict(s['mod'])
+            if sum(m.values()) not in (0, 8) :
+                continue
+        if s['kind'] == 'ExecuteMatch' and s.get('markers') and any(f for _, f in s['markers']):
+            continue            # the frame does not depend on the transfer mechanism: one marker assignment
+        if s['kind'] in ('CreateAsk', 'CreateBid') and s['nfunds'] == 2:
+            continue
+        s = dict(s, extra_ask='Ready' if s['ask'] != 'Ready' else 'Basic', extra_bid=not s['bidfee'])
+        out.append(s)
+    return out
 
 
 def run(pid, tier, seed, jobs=None, only=None):
@@ -24,6 +43,18 @@ def run(pid, tier, seed, jobs=None, only=None):
         kinds = [k for k in KINDS[pid] if not only or k in only]
         specs = ST.specs_for(kinds, tier)
         return R.run_check(pid, tier, seed, specs, jobs=jobs)
+    if pid == 'C11':
+        specs = [s for s in specs_c11(tier) if not only or s['kind'] in only]
+        return R.run_check(pid, tier, seed, specs, jobs=jobs)
+    from . import entry as EN
+    if pid == 'C13':
+        return R.run_check(pid, tier, seed, EN.specs_instantiate(tier), opts={'builder': 'build_instantiate', 'runner': 'run_instantiate', 'extra': 'integrality'}, jobs=jobs)
+    if pid == 'C14':
+        return R.run_check(pid, tier, seed, EN.specs_migrate(tier), opts={'builder': 'build_migrate', 'runner': 'run_migrate', 'extra': 'idempotence'}, jobs=jobs)
+    if pid == 'C15':
+        return R.run_check(pid, tier, seed, EN.specs_migrate(tier, for_c15=True), opts={'builder': 'build_migrate', 'runner': 'run_migrate'}, jobs=jobs)
+    if pid == 'C16':
+        return R.run_check(pid, tier, seed, EN.specs_query(tier), opts={'builder': 'build_query', 'runner': 'run_query'}, jobs=jobs)
     print('unknown or not-applicable property ' + pid)
     return 2
 
